@@ -46,6 +46,10 @@ fn operators() -> Vec<(String, Arc<dyn Fn(Vec<El<(i64, i64)>>) -> Shape + Send +
     v.push(("reorder".into(), Arc::new(|sc| shape(&drive(s(sc).reorder().verif_into_chain().chain)))));
     v.push(("flat-map".into(), Arc::new(|sc| shape(&drive(s(sc).flat_map(|x| vec![x, x]).verif_into_chain().chain)))));
     v.push(("map-filter".into(), Arc::new(|sc| shape(&drive(s(sc).map(|x| x).filter(|x| x.1 % 2 == 0).verif_into_chain().chain)))));
+    v.push(("keyed-flat-map".into(), Arc::new(|sc| shape(&drive(s(sc).to_keyed().flat_map(|(_, v)| vec![v, v]).0.verif_into_chain().chain)))));
+    v.push(("flatten".into(), Arc::new(|sc| shape(&drive(s(sc).map(|x| vec![x, x]).flatten().verif_into_chain().chain)))));
+    v.push(("keyed-flatten".into(), Arc::new(|sc| shape(&drive(s(sc).to_keyed().map(|(_, v)| vec![v, v]).flatten().0.verif_into_chain().chain)))));
+    v.push(("keyed-filter-map-inspect".into(), Arc::new(|sc| shape(&drive(s(sc).to_keyed().filter_map(|(_, v)| if v % 2 == 0 { Some(v) } else { None }).inspect(|_| {}).0.verif_into_chain().chain)))));
     v.push(("rich-map".into(), Arc::new(|sc| shape(&drive(s(sc).to_keyed().rich_map(|x| x.1).0.verif_into_chain().chain)))));
     for (n, sl) in [(1usize, 1usize), (2, 1), (2, 2), (3, 2)] {
         v.push((format!("count-window-exact-{n}-{sl}"), Arc::new(move |sc| shape(&drive(s(sc).to_keyed().window(CountWindow::new(n, sl, true)).sum::<i64>().0.verif_into_chain().chain)))));
@@ -96,6 +100,79 @@ fn build(tier: Tier) -> Vec<Scenario> {
                             format!("c06-{name2}-{sig}"),
                             format!("{name2}: history {:?}: {msg}; output (kind, ts) {:?}", h, sh),
                         )));
+                    }
+                });
+                (cases, nontrivial, fails.first())
+            }),
+        ));
+    }
+    // add_timestamps / drop_timestamps: the generator functions are the user's; with functions that
+    // respect the contract the operator must emit exactly element, then its watermark
+    for keyed in [false, true] {
+        out.push(loop_scenario(
+            format!("C06/add-drop-timestamps/keyed{keyed}/len{len}"),
+            format!("all contract-respecting histories of length <= {len} in which every watermark follows an element, produced by add_timestamps from plain items (keyed stream: {keyed}); output = exactly the history; then drop_timestamps gives back the plain items"),
+            Arc::new(move || {
+                let mut cases = 0;
+                let mut nontrivial = 0;
+                let mut fails = FailSet::default();
+                histories(2, tmax, len, &mut |h| {
+                    if fails.full() {
+                        return;
+                    }
+                    // items (key, id, ts, wm or -1)
+                    let mut script: Vec<El<(i64, (i64, i64, i64))>> = vec![];
+                    let mut expected: Shape = vec![];
+                    for (i, sym) in h.iter().enumerate() {
+                        match sym {
+                            Sym::T(k, t) => {
+                                script.push(StreamElement::Item((*k, (i as i64, *t, -1))));
+                                expected.push((crate::kit::K_TS, Some(*t)));
+                            }
+                            Sym::W(w) => match script.last_mut() {
+                                Some(StreamElement::Item((_, (_, _, wm)))) if *wm < 0 && matches!(h[i - 1], Sym::T(..)) => {
+                                    *wm = *w;
+                                    expected.push((crate::kit::K_WM, Some(*w)));
+                                }
+                                _ => return, // a watermark that no element can carry
+                            },
+                            Sym::Far => {
+                                script.push(StreamElement::FlushAndRestart);
+                                expected.push((crate::kit::K_FAR, None));
+                            }
+                        }
+                    }
+                    cases += 1;
+                    if h.iter().any(|s| matches!(s, Sym::W(_))) {
+                        nontrivial += 1;
+                    }
+                    let (stamped, dropped) = if keyed {
+                        let a = shape(&drive(script_stream(script.clone()).to_keyed().add_timestamps(|(_, v)| v.1, |(_, v), _| if v.2 >= 0 { Some(v.2) } else { None }).0.verif_into_chain().chain));
+                        let b = shape(&drive(script_stream(script).to_keyed().add_timestamps(|(_, v)| v.1, |(_, v), _| if v.2 >= 0 { Some(v.2) } else { None }).drop_timestamps().0.verif_into_chain().chain));
+                        (a, b)
+                    } else {
+                        let a = shape(&drive(script_stream(script.clone()).add_timestamps(|x| x.1 .1, |x, _| if x.1 .2 >= 0 { Some(x.1 .2) } else { None }).verif_into_chain().chain));
+                        let b = shape(&drive(script_stream(script).add_timestamps(|x| x.1 .1, |x, _| if x.1 .2 >= 0 { Some(x.1 .2) } else { None }).drop_timestamps().verif_into_chain().chain));
+                        (a, b)
+                    };
+                    // the source closes the last iteration itself
+                    let strip = |sh: &Shape| -> Shape {
+                        let mut v = sh.clone();
+                        while matches!(v.last(), Some((k, _)) if *k == crate::kit::K_TERM || *k == crate::kit::K_FAR) {
+                            v.pop();
+                        }
+                        v
+                    };
+                    let mut exp = expected.clone();
+                    while matches!(exp.last(), Some((k, _)) if *k == crate::kit::K_FAR) {
+                        exp.pop();
+                    }
+                    if strip(&stamped) != exp {
+                        fails.add(Some(Fail::new("c06-add-timestamps-output", format!("add_timestamps (keyed {keyed}) for history {:?}: output (kind, ts) {:?}, expected {:?}", h, strip(&stamped), exp))));
+                    }
+                    let exp_dropped: Shape = exp.iter().filter(|(k, _)| *k != crate::kit::K_WM).map(|(k, _)| if *k == crate::kit::K_TS { (crate::kit::K_ITEM, None) } else { (*k, None) }).collect();
+                    if strip(&dropped) != exp_dropped {
+                        fails.add(Some(Fail::new("c06-drop-timestamps-output", format!("drop_timestamps (keyed {keyed}) for history {:?}: output (kind, ts) {:?}, expected {:?}", h, strip(&dropped), exp_dropped))));
                     }
                 });
                 (cases, nontrivial, fails.first())
